@@ -15,8 +15,10 @@ def canon_dump(funcs):
     # (the captured names of make_function - every argument after the first - are a set: the compiler collects them in a HashSet,
     # so their order differs from one compilation to the next)
     arg = lambda i: [i["args"][0]] + sorted(i["args"][1:]) if i["op"] == "make_function" and i["args"] else i["args"]
-    fs = sorted(([f["name"], [[i["id"], arg(i)] for i in f["code"]]] for f in funcs), key=lambda x: x[0])
-    return json.dumps(fs, ensure_ascii=False, sort_keys=True)
+    # (a file that is loaded twice under two spellings of its path - `./main.mmm` as the entry, `main.mmm` as the target of an
+    # import of the entry module by itself - is dumped twice: identical copies of a function count once)
+    fs = sorted({json.dumps([f["name"], [[i["id"], arg(i)] for i in f["code"]]], ensure_ascii=False, sort_keys=True) for f in funcs})
+    return "[" + ", ".join(fs) + "]"
 
 
 def make_str_arg(funcs):
@@ -43,32 +45,33 @@ def stale_blob(binary, work):
     return STALE["blob"]
 
 
-def run_path(binary, d, which, timeout=10, stale=b""):
-    """which in run|exec|text ; d contains main.ms. Returns dict(exit,out,dump,funcs,err)."""
+def run_path(binary, d, which, timeout=10, stale=b"", pre=""):
+    """which in run|exec|text ; d contains main.ms. Returns dict(exit,out,dump,funcs,err).
+    pre: how the entry file is spelled on the command lines ("" or "./": the same file either way)."""
     dump = d / f"{which}.dump.ndjson"
     if dump.exists():
         dump.unlink()
     env = dict(MSCRIPT_VERIF_DUMP=str(dump))
     if which == "run":
-        r = C.run_proc([binary, "run", "main.ms", "-q"], cwd=d, timeout=timeout, env=env)
+        r = C.run_proc([binary, "run", pre + "main.ms", "-q"], cwd=d, timeout=timeout, env=env)
     else:
         for f in d.glob("*.mmm"):
             f.unlink()
         if stale:
             (d / "main.mmm").write_bytes(stale)
         if which == "exec":
-            rc = C.run_proc([binary, "compile", "main.ms", "--quick"], cwd=d, timeout=timeout)
+            rc = C.run_proc([binary, "compile", pre + "main.ms", "--quick"], cwd=d, timeout=timeout)
         else:
-            rc = C.run_proc([binary, "compile", "main.ms", "--quick", "--output-format", "raw-text"], cwd=d, timeout=timeout)
+            rc = C.run_proc([binary, "compile", pre + "main.ms", "--quick", "--output-format", "raw-text"], cwd=d, timeout=timeout)
             if rc["exit"] == 0 and (d / "main.mmm").exists():
                 os.replace(d / "main.mmm", d / "main.transpiled.mmm")
-                rt = C.run_proc([binary, "transpile", "main.transpiled.mmm"], cwd=d, timeout=timeout)
+                rt = C.run_proc([binary, "transpile", pre + "main.transpiled.mmm"], cwd=d, timeout=timeout)
                 if rt["exit"] != 0 or rt["timeout"]:
                     rc = dict(rt, err="transpile failed: " + rt["err"])
         if rc["exit"] != 0 or rc["timeout"]:
             return dict(exit=rc["exit"] if not rc["timeout"] else 124, out="", dump="", funcs=[], err=C.strip_ansi(rc["err"])[-600:], stage="build",
                         compile_failed="Did not compile" in rc["err"])
-        r = C.run_proc([binary, "execute", "main.mmm"], cwd=d, timeout=timeout, env=env)
+        r = C.run_proc([binary, "execute", pre + "main.mmm"], cwd=d, timeout=timeout, env=env)
     funcs = [f for f in corpus.read_ndjson(dump) if f["file"].endswith("main.mmm")]
     return dict(exit=r["exit"] if not r["timeout"] else 124, out=r["out"], dump=canon_dump(funcs), funcs=funcs,
                 err=C.strip_ansi(r["err"])[-600:], stage="run", compile_failed="Did not compile" in r["err"])
@@ -112,7 +115,7 @@ def observe_literal(binary, root, case, want_text, stale=b""):
     return ob
 
 
-def observe_program(binary, root, src_path, want_text, pid, stale=b""):
+def observe_program(binary, root, src_path, want_text, pid, stale=b"", pre=""):
     """whole-program equivalence for an existing source file (its directory is copied)."""
     d = slot(root)
     src_path = Path(src_path)
@@ -123,15 +126,15 @@ def observe_program(binary, root, src_path, want_text, pid, stale=b""):
             shutil.copytree(f, d / f.name, dirs_exist_ok=True, ignore=shutil.ignore_patterns("*.mmm"))
     if src_path.name != "main.ms":
         shutil.copy(src_path, d / "main.ms")
-    run = run_path(binary, d, "run", timeout=6)
-    run2 = run_path(binary, d, "run", timeout=6)
+    run = run_path(binary, d, "run", timeout=6, pre=pre)
+    run2 = run_path(binary, d, "run", timeout=6, pre=pre)
     compiled = not run.get("compile_failed") and not (run["exit"] == 101 and "panicked at compiler" in run["err"])
     stable = run["out"] == run2["out"] and run["exit"] == run2["exit"] and run["exit"] not in (124,)
     ob = dict(id=pid, body=[], is_literal_case=False, src=src_path.read_text(errors="replace"), compiled=compiled and stable, run=run,
               nondeterministic=not stable, mem_arg=[], has_text=bool(want_text))
     if compiled and stable:
-        ob["exec"] = run_path(binary, d, "exec", timeout=6, stale=stale)
-        ob["text"] = run_path(binary, d, "text", timeout=6, stale=stale) if want_text else run
+        ob["exec"] = run_path(binary, d, "exec", timeout=6, stale=stale, pre=pre)
+        ob["text"] = run_path(binary, d, "text", timeout=6, stale=stale, pre=pre) if want_text else run
     else:
         ob["exec"] = ob["text"] = run
     shutil.rmtree(d, ignore_errors=True)
@@ -189,11 +192,15 @@ def run_check(pid, tier, want_text):
     feat = progpool.features(binary, work / "features", tier, rep.seed)
     if tier == "quick" and len(feat) > 500:
         feat = rnd.sample(feat, 500)
-    progs = [(str(Path(s).relative_to(work)), s) for s in srcs] + [("pool/" + str(Path(s).relative_to(work / "pool")), s) for s in pool] \
+    big = progpool.sizes(work / "sizes", tier, rep.seed)
+    progs = [("sizes/" + str(Path(s).relative_to(work / "sizes" / "p")), s) for s in big] + [(str(Path(s).relative_to(work)), s) for s in srcs] + [("pool/" + str(Path(s).relative_to(work / "pool")), s) for s in pool] \
         + [("features/" + str(Path(s).relative_to(work / "features" / "f")), s) for s in feat]
     if want_text:
         progs = [(i, s) for i, s in progs if "import " not in Path(s).read_text(errors="replace")]
-    pobs = C.pmap(lambda kx: observe_program(binary, root, kx[1][1], want_text, kx[1][0], stale=(blob if kx[0] % 2 == 0 else b"")), list(enumerate(progs)))
+    # (`./` only for programs without imports: a module that imports the entry module is compiled a second time under the
+    # normalised spelling, and the position texts inside its `assert` arguments then name the file differently - not a codec matter)
+    has_import = {i for i, s in progs if "import " in Path(s).read_text(errors="replace")}
+    pobs = C.pmap(lambda kx: observe_program(binary, root, kx[1][1], want_text, kx[1][0], stale=(blob if kx[0] % 2 == 0 else b""), pre=("./" if kx[0] % 3 == 1 and kx[1][0] not in has_import else "")), list(enumerate(progs)))
     allobs = obs + pobs
     r = judge(work, allobs)
     byid = {o["id"]: o for o in allobs}
@@ -214,11 +221,11 @@ def run_check(pid, tier, want_text):
         states=g.distinct + r.distinct, transitions=g.generated + r.generated,
         traces_validated_against_impl=len(allobs), literal_bodies_enumerated=len(cases), literals_run=len(obs),
         not_a_single_literal=not_literal, literals_rejected_by_compiler=sum(1 for o in obs if not o["compiled"]),
-        programs=len(pobs), programs_nondeterministic_excluded=sum(1 for o in pobs if o.get("nondeterministic")),
+        programs=len(pobs), programs_with_dot_slash_entry=sum(1 for k, (i, _) in enumerate(progs) if k % 3 == 1 and i not in has_import), long_literal_programs=len(big), programs_nondeterministic_excluded=sum(1 for o in pobs if o.get("nondeterministic")),
         programs_not_compiling=sum(1 for o in pobs if not o["compiled"] and not o.get("nondeterministic")),
         model_mismatches=len(mism), compiled_over_a_longer_existing_output=sum(1 for k in range(len(todo)) if k % 3 == 0) + sum(1 for k in range(len(progs)) if k % 2 == 0), spec_theorems_checked=["C04_ArgumentsReadBackAsEmitted", "C18_TextFormRoundTrips", "CanonDecodes"],
         evaluations=len(allobs), distinct_nontrivial=sum(1 for o in obs if any(ch in '"\\ \t\n\r' for ch in o["body"])),
-        rule=f"GenCodec.tla BFS: all strings of length <= {maxlen} over the 10-character alphabet of format-special characters, each as literal body (if it is one literal) and via its canonical source text; plus whole programs (example corpus, sample of generated programs); non-trivial = contains a format-special character",
+        rule=f"GenCodec.tla BFS: all strings of length <= {maxlen} over the 10-character alphabet of format-special characters, each as literal body (if it is one literal) and via its canonical source text; plus whole programs (example corpus, sample of generated programs of every feature area, GenSize.tla: one literal of 1 365 .. 70 000 copies of a 1- to 4-byte unit - records and text lines around 4 KiB / 8 KiB / 64 KiB; every third program with its entry file spelled `./main.ms` / `./main.mmm`); non-trivial = contains a format-special character",
         exhaustive=True,
         samples=[dict(id=o["id"], run_out=o["run"]["out"][:40], compiled=o["compiled"]) for o in obs[:: max(1, len(obs) // 3)][:3]],
     )
